@@ -11,6 +11,17 @@ def modPos : List Nat → List Link
   | r :: s :: rest => (s :: rest).map (fun p => ⟨nidAt p, nidAt r, BARE_EQ_ROLE, EQ_POST⟩)
   | _ => []
 
+theorem mapE_of_forall {α β ε : Type} (g : α → Except ε β) (h : α → β) :
+    ∀ (l : List α), (∀ x ∈ l, g x = .ok (h x)) → mapE g l = .ok (l.map h) := by
+  intro l
+  induction l with
+  | nil => intro _; rfl
+  | cons x l ih =>
+    intro hl
+    unfold mapE
+    rw [hl x List.mem_cons_self, ih (fun y hy => hl y (List.mem_cons_of_mem _ hy))]
+    rfl
+
 theorem modLinksOf_pos (m : MRS) (hN : BaseIdsDistinct m) (rs : List Pred)
     (hmem : ∀ r ∈ rs, r ∈ m.preds) : modLinksOf m rs = .ok (modPos (rs.map (posOf m))) := by
   unfold modLinksOf
@@ -18,22 +29,13 @@ theorem modLinksOf_pos (m : MRS) (hN : BaseIdsDistinct m) (rs : List Pred)
   · rfl
   · rfl
   · simp only [idToNid_pos m hN r (hmem r List.mem_cons_self)]
-    have key : ∀ (l : List Pred), (∀ p ∈ l, p ∈ m.preds) →
-        mapE (fun p : Pred => match idToNid m p.1 with
-          | some start => .ok (⟨start, nidAt (posOf m r), BARE_EQ_ROLE, EQ_POST⟩ : Link)
-          | none => (.error .keyError : Except Err Link)) l =
-        .ok (l.map (fun p => ⟨nidAt (posOf m p), nidAt (posOf m r), BARE_EQ_ROLE, EQ_POST⟩)) := by
-      intro l
-      induction l with
-      | nil => intro _; rfl
-      | cons p l ih =>
-        intro hl
-        unfold mapE
-        simp only [idToNid_pos m hN p (hl p List.mem_cons_self)]
-        rw [ih (fun q hq => hl q (List.mem_cons_of_mem _ hq))]
-        rfl
-    rw [key (s :: rest) (fun p hp => hmem p (List.mem_cons_of_mem _ hp))]
-    simp [modPos, List.map_map, Function.comp_def]
+    have hrhs : modPos ((r :: s :: rest).map (posOf m)) =
+        (s :: rest).map (fun p => (⟨nidAt (posOf m p), nidAt (posOf m r), BARE_EQ_ROLE, EQ_POST⟩ : Link)) := by
+      simp [modPos, List.map_map, Function.comp_def]
+    rw [hrhs]
+    apply mapE_of_forall
+    intro p hp
+    simp only [idToNid_pos m hN p (hmem p (List.mem_cons_of_mem _ hp))]
 
 namespace RTCtx
 variable {m : MRS} {d : DMRS} {m2 : MRS} {reps : Reps} {topLbl : Option Var}
@@ -135,7 +137,7 @@ theorem argLink_ns (C : RTCtx m d m2 reps topLbl sc lbl leqs idToIv ns scs lo hi
     rw [hnn, hep]
     simp only
     -- the post
-    have hlabel : (ei.label = ej.label) ↔ (src.2.label = tgt.2.label) := by
+    have hlabel : (e2.label = ej.label) ↔ (src.2.label = tgt.2.label) := by
       have hi'lt : i' < m.rels.length := (List.getElem?_eq_some_iff.mp hsrc).1
       have e1 : m.rels[i'] = src.2 := by
         have := hsrc; rw [List.getElem?_eq_getElem hi'lt] at this; simpa using this
@@ -173,7 +175,7 @@ theorem argLink_ns (C : RTCtx m d m2 reps topLbl sc lbl leqs idToIv ns scs lo hi
           exact Or.inl hab
         have := hsl.mpr hreach
         simpa using this
-    have hpost' : l0.post = if ei.label = ej.label then EQ_POST else NEQ_POST := by
+    have hpost' : l0.post = if e2.label = ej.label then EQ_POST else NEQ_POST := by
       rw [hpost]
       by_cases hl : src.2.label = tgt.2.label
       · rw [if_pos hl, if_pos (hlabel.mpr hl)]
@@ -216,7 +218,13 @@ theorem argLink_sc (C : RTCtx m d m2 reps topLbl sc lbl leqs idToIv ns scs lo hi
       obtain ⟨p, r1, _, _⟩ := predAt_some m _ _ ht
       exact ⟨(v', tgt :: rest), tgt, rest, p, dlookup_mem hrep, rfl, r1, by rw [← r1]; exact ht⟩
   obtain ⟨sr, tgt, rest, p, hsr, hsr2, hstop, hpt⟩ := htarget
-  obtain ⟨_, _, _, hplt⟩ := predAt_some m _ _ hpt
+  have hplt : p < m.rels.length := by
+    have h1 := hpt
+    rw [predAt_nidAt] at h1
+    have h2 := (List.getElem?_eq_some_iff.mp h1).1
+    unfold MRS.preds at h2
+    rw [List.length_zip, ids_length] at h2
+    omega
   obtain ⟨np, ep, ivp, hnp, hidp, hep, psp, _⟩ :=
     C.at_pos p m.rels[p] (List.getElem?_eq_getElem hplt)
   have hlbp : lb = ep.label := by
@@ -228,7 +236,7 @@ theorem argLink_sc (C : RTCtx m d m2 reps topLbl sc lbl leqs idToIv ns scs lo hi
   obtain ⟨lp1, lp2, lp3⟩ := C.label_props (List.mem_of_getElem? hnp) psp
   unfold argLink
   rcases hcase with ⟨hp, hv⟩ | ⟨hp, hnew, hmem⟩
-  · subst hv
+  · rw [hv]
     rw [C.ivToNid_handle hS lb (by rw [hlbp]; exact lp2)]
     simp only
     have : scopalTarget m2 lb = (lb, HEQ_POST) := by
